@@ -145,7 +145,7 @@ func NewCtx(id, tier string) *Ctx {
 	}
 	c := &Ctx{ID: id, Tier: tier, Seed: seed, Verif: verif, Repo: repo, start: time.Now(),
 		distinct: map[[8]byte]struct{}{}, kfSeen: map[string]int{}, Extra: map[string]interface{}{},
-		MaxViolations: 8}
+		MaxViolations: 30}
 	c.loadKnown()
 	return c
 }
